@@ -3,7 +3,7 @@ import Ucan.Model.Immut
 /-!
 `imm.op <op> <argument keys in insertion order> <metadata keys in insertion order>`
 op ∈ argsToIPLD | argsString | metaString | argsIter | metaIter | executionAllowed | seal |
-     executionAllowedHook | executionAllowedMissing
+     executionAllowedHook | executionAllowedMissing | executionAllowedHookDenied | executionAllowedHookClone
 Answer: `<argument key order afterwards> <metadata key order afterwards> <key order of the output>
          <number of written cells in the spare capacity of the shared delegations' policy slices>`
 `imm.pair <op X> <op Y> <argument keys> <metadata keys>`: the same answer for Y run after X on one token
@@ -22,7 +22,9 @@ def opOfName : String → Option ROp
   | "argsToIPLD" => some .argsToIPLD | "argsString" => some .argsString | "metaString" => some .metaString
   | "argsIter" => some .argsIter | "metaIter" => some .metaIter | "executionAllowed" => some .executionAllowed
   | "seal" => some .seal | "executionAllowedHook" => some .executionAllowedHook
-  | "executionAllowedMissing" => some .executionAllowedMissing | _ => none
+  | "executionAllowedMissing" => some .executionAllowedMissing
+  | "executionAllowedHookDenied" => some .executionAllowedHookDenied
+  | "executionAllowedHookClone" => some .executionAllowedHookClone | _ => none
 
 def immState (ak mk : List Bytes) : TokState :=
   { argKeys := ak, argVals := ak.map (fun k => (k, Node.int 1)),
